@@ -61,8 +61,8 @@ def mirror : BinOp → BinOp
     right operand's class is a proper subclass of the left operand's class (`bit_t` vs
     `rand_bit_t`, ...) through the *reflected* method of the right operand, so `nonrand < rand`
     between two plain fields of one family is built as `rand > nonrand`. -/
-partial def exprOf (fk : Array FKind) (j : Json) : Except String Expr := do
-  let exprOf := exprOf fk
+partial def exprOf (fk : Array FKind) (j : Json) (refsMode : Bool := false) : Except String Expr := do
+  let exprOf := fun (x : Json) => exprOf fk x refsMode
   let k ← getS j "k"
   match k with
   | "int" => do
@@ -99,15 +99,17 @@ partial def exprOf (fk : Array FKind) (j : Json) : Except String Expr := do
         match getOpt r "single" with
         | some s => pure (RangeItem.single (← exprOf s))
         | none => pure (RangeItem.range (← exprOf (← r.getObjVal? "lo")) (← exprOf (← r.getObjVal? "hi")))
-      let e := mkIn lhs items.reverse
+      -- (`refsMode`: the expression as far as the fields it mentions go — the left-hand side of a
+      -- membership test in an empty range list is mentioned although it contributes no term)
+      let e := if refsMode && items.isEmpty then .reset (.bin .eq lhs lhs) else mkIn lhs items.reverse
       pure (if k == "in" then e else .not e)
   | _ => throw s!"unknown expr kind {k}"
 
 def scopeOf (ss : List Stmt) : Stmt := ss.foldr .cons .nil
 
-partial def stmtOf (fk : Array FKind) (j : Json) : Except String Stmt := do
-  let stmtOf := stmtOf fk
-  let exprOf := exprOf fk
+partial def stmtOf (fk : Array FKind) (j : Json) (refsMode : Bool := false) : Except String Stmt := do
+  let stmtOf := fun (x : Json) => stmtOf fk x refsMode
+  let exprOf := fun (x : Json) => exprOf fk x refsMode
   let k ← getS j "k"
   match k with
   | "expr" => pure (.expr (← exprOf (← j.getObjVal? "e")))
@@ -566,6 +568,7 @@ def handleCall (j : Json) : Except String Json := do
   -- a `dist` statement is replaced by the statements of its rewrite; the registration mark sits
   -- after the last of them
   let mut tops : List Stmt := []
+  let mut refTops : List Stmt := []     -- the same statements as far as the fields they mention go
   let mut marks : List (Nat × Nat × Nat) := []
   let mut distDefsE : Array (List (Expr × Option Expr × Expr)) := #[]
   for tj in (← getA j "tops") do
@@ -578,12 +581,14 @@ def handleCall (j : Json) : Except String Json := do
         | none => pure ⟨← exprOf fk (← w.getObjVal? "lo"), some (← exprOf fk (← w.getObjVal? "hi")), wexp⟩
       let ss := Pyvsc.Dist.rewrite lhs ws
       tops := tops ++ ss
+      refTops := refTops ++ ss
       match lhs with
       | .fld f => marks := marks ++ [(tops.length - 1, f, distDefsE.size)]
       | _ => pure ()
       distDefsE := distDefsE.push (ws.map fun x => (x.lo, x.hi, x.w))
     else
       tops := tops ++ [← stmtOf fk tj]
+      refTops := refTops ++ [← stmtOf fk tj true]
   let recs ← getA j "rec"
   let limit := (getN j "enumLimit").toOption.getD 14
   let implFinal : Option (Array Int) := match getOpt j "implFinal" with
@@ -616,7 +621,9 @@ def handleCall (j : Json) : Except String Json := do
   let allF : List Nat := match getOpt j "allF" with
     | some a => ((a.getArr?).toOption.map fun l => l.toList.filterMap fun x => x.getNat?.toOption).getD (List.range fields.size)
     | none => List.range fields.size
-  runCall fields tops recs limit implFinal allF [] draws orderPairs implBounds marks distDefsE
+  let semTops := tops
+  runCall fields refTops recs limit implFinal allF tops draws orderPairs implBounds marks distDefsE
+    (semTops := some fun _ => pure semTops)
 
 /-- `z.expr`: value of one expression under an environment, reference and lowered side by side -/
 def handleExpr (j : Json) : Except String Json := do
